@@ -20,7 +20,9 @@ PASS = "correct horse ✓"
 # passphrases that differ from one another only slightly: phrase identities of the specification are mapped to distinct
 # members (no NUL characters: HMAC zero-pads short keys, so P and P + NUL are the same key by construction)
 VARIANTS = [PASS, PASS + "\n", PASS + "\r\n", PASS + "\r", PASS + " ", " " + PASS, PASS[:-1], PASS.upper(), PASS + "\t", "\n" + PASS,
-            PASS + "\n\n", PASS.replace("✓", "v"), "p", "P", "pässword", "password\n", "password"]
+            PASS + "\n\n", PASS.replace("✓", "v"), "p", "P", "pässword", "password\n", "password",
+            # pairs that differ only by Unicode normalisation / compatibility forms: different passphrases
+            "pa\u00b2ss", "pa2ss", "\u212bngstr\u00f6m", "\u00c5ngstr\u00f6m", "Cafe\u0301", "Caf\u00e9", "\uff46\uff55\uff4c\uff4c", "full", "\ufb01n", "fin"]
 SALTS = {n: [bytes([17 * (j + 1)] * n) for j in range(2)] for n in (8, 16, 32)}   # small pool: later unlocks in a process reuse salts
 KEYMAP = {"k1": "displayName", "k2": "guestOS"}
 
@@ -204,7 +206,7 @@ def run(ctx):
     for cipher in E.KEYLEN:
         for mac in E.MACS:
             for kdf in E.KDFS:
-                for n in ([4, 15, 16, 17, 100] if not thorough else [4, 8, 15, 16, 17, 31, 32, 33, 100, 1000]):
+                for n in ([4, 15, 16, 17, 100, 16384, 20001] if not thorough else [4, 8, 15, 16, 17, 31, 32, 33, 100, 1000, 16383, 16384, 16385, 70000]):
                     text, cfg, alg = make_bundle([{"match": True, "tamper": "none"}], "none", rng, cipher=cipher, mac=mac, kdf=kdf, cfg_len=n,
                                                   fixed_kdf_inputs=True)   # same passphrase / salt / rounds for every triple in this process
                     ctx.case(key=("triple", cipher, mac, kdf, n), nontrivial=True)
